@@ -1,6 +1,8 @@
 package main
 
 import (
+	"fmt"
+	"os"
 	"go/types"
 	"sort"
 	"strings"
@@ -684,6 +686,65 @@ func c12OrderAndPresence(c *Ctx, toFns, fromFns []*ssa.Function) {
 				}
 				if !presenceLike(f, isTo) {
 					bad = append(bad, p.InstrPos(in)+": "+f.String())
+				}
+			}
+			// and the other way round (a condition joined with || or negated leaves no must-fact at the store): every
+			// path through the converter that skips this store / setter leaves the way to it on an edge that tests the
+			// shape of the object (comma-ok flag, nil, signature variant, list bound, failed library decoding), never on
+			// an edge that tests anything else
+			reach := map[*ssa.BasicBlock]bool{in.Block(): true}
+			for changed := true; changed; {
+				changed = false
+				for _, b := range fn.Blocks {
+					if reach[b] {
+						continue
+					}
+					for _, s := range b.Succs {
+						if reach[s] {
+							reach[b], changed = true, true
+						}
+					}
+				}
+			}
+			seenB := map[*ssa.BasicBlock]bool{fn.Blocks[0]: true}
+			work := []*ssa.BasicBlock{fn.Blocks[0]}
+			if fn.Blocks[0] == in.Block() {
+				work = nil
+			}
+			for len(work) > 0 {
+				b := work[0]
+				work = work[1:]
+				if r, isRet := b.Instrs[len(b.Instrs)-1].(*ssa.Return); isRet {
+					bad = append(bad, p.InstrPos(in)+": can be skipped on a path to "+p.Pos(r.Pos())+" that leaves the way to it on a test of something other than the part's presence")
+					break
+				}
+				for _, s := range b.Succs {
+					if seenB[s] || s == in.Block() {
+						continue
+					}
+					if os.Getenv("HSVERIF_DEBUG") != "" && fn.Name() == "SyncInfoToProto" {
+						fmt.Println("DEBUG presence", p.InstrPos(in), "edge", b.Index, "->", s.Index, "reach", reach[s])
+					}
+					if !reach[s] && reach[b] {
+						// leaving the way to the store: only on a shape test
+						shape := len(b.Succs) < 2
+						if iff, isIf := b.Instrs[len(b.Instrs)-1].(*ssa.If); isIf && len(b.Succs) == 2 {
+							// what this very test establishes (not what was known before it)
+							var fs []Fact
+							fl.decompose(iff.Cond, s == b.Succs[0], &fs)
+							shape = len(fs) > 0
+							for _, f := range fs {
+								if f.Op != "after" && !presenceLike(f, isTo) {
+									shape = false
+								}
+							}
+						}
+						if shape {
+							continue
+						}
+					}
+					seenB[s] = true
+					work = append(work, s)
 				}
 			}
 		})
